@@ -12,7 +12,7 @@ func histCases(tier string, seed int64, salt uint64, delBias []int, n int, order
 	r := rng.New(uint64(seed) ^ salt)
 	var cs []runner.Case
 	for i := 0; i < n; i++ {
-		h := Hist{Seed: r.U64(), Native: i%2 == 0, NInst: 2 + r.Intn(3), Ops: 10 + r.Intn(31), NKeys: 3 + r.Intn(4), NDBI: 1 + r.Intn(3), DelBias: delBias[i%len(delBias)], Padding: i%7 == 3, Orders: orders, IntKeys: i%3 == 1}
+		h := Hist{Seed: r.U64(), Native: i%2 == 0, NInst: 2 + r.Intn(3), Ops: 10 + r.Intn(31), NKeys: 3 + r.Intn(4), NDBI: 1 + r.Intn(3), DelBias: delBias[i%len(delBias)], Padding: i%7 == 3, Orders: orders, IntKeys: i%3 == 1, LongKeys: i%5 == 2}
 		if tier == "thorough" {
 			h.Ops = 20 + r.Intn(101)
 		}
